@@ -695,6 +695,15 @@ bool setData(Obj& obj, const json& op, Out& o)
         decodeCarrying(o, *c->p);
         return true;
     }
+    if (auto* c = dynamic_cast<TecmpLinObj*>(&obj))
+    {
+        // the TECMP LIN payload class has a builder too (no validity check, no decoder path of its own)
+        c->p->setData(data.data(), static_cast<uint8_t>(data.size()));
+        o.obj("views").kv("dataLength", c->p->getDataLength());
+        view(o, "data", c->p->getData(), c->p->getDataLength());
+        o.end().kv("valid", true);
+        return true;
+    }
     if (auto* c = dynamic_cast<EthObj*>(&obj))
     {
         c->p->setData(data.data(), static_cast<uint16_t>(data.size()));
